@@ -9,6 +9,7 @@ parse_member_metadata), generation −1 as the real coordinator does, and also w
 generations.
 """
 import itertools
+import pathlib
 from vlib import HarnessError
 
 from checks.assign_common import (ORACLE_LOG, AssignorHang, StubCluster, enc_output, enc_parts,
@@ -193,12 +194,22 @@ def run(ctx):
             ctx.violation(f"sticky-raises:{type(e).__name__}", f"sticky assignor raised {e!r} after a subscription/metadata change",
                           {"cases": [{"parts": parts, "members": members}]})
     # chains of up to 5 rounds (identical subscriptions): leave / join / same, statements between consecutive rounds
-    n_chain = 600 if ctx.thorough else 60
+    n_chain = 1500 if ctx.thorough else 150
     for _ in range(n_chain):
         nt = rng.randrange(1, 4)
-        parts = [(t, list(range(rng.randrange(1, 7)))) for t in range(nt)]
+        parts = [(t, list(range(rng.randrange(1, 13 if rng.random() < 0.5 else 7)))) for t in range(nt)]
         subs = list(range(nt))
-        members = [(m, subs) for m in range(rng.randrange(1, 5))]
+        if rng.random() < 0.4:      # a topic of the cluster that nobody subscribes to
+            parts = parts + [(nt, list(range(rng.randrange(1, 6))))]
+        shuffle = rng.random() < 0.4    # members name the same topics in different orders
+
+        def sub_list():
+            if not shuffle:
+                return subs
+            x = list(subs)
+            rng.shuffle(x)
+            return x
+        members = [(m, sub_list()) for m in range(rng.randrange(1, 5))]
         nxt = 10
         try:
             prev_out = sticky_round(A, parts, members, None, -1)
@@ -213,7 +224,7 @@ def run(ctx):
                     keep(parts, new_members, prev_out, cur, {"clause": "b-chain", "parts": parts, "members": members, "gone": gone, "round": rnd})
                 elif op == "join":
                     k = rng.randrange(1, 3)
-                    new_members = members + [(nxt + j, subs) for j in range(k)]
+                    new_members = members + [(nxt + j, sub_list()) for j in range(k)]
                     nxt += k
                     cur = sticky_round(A, parts, new_members, tomap(prev_out), -1)
                     q("no-old-to-old", prev_out, cur, ",".join(str(m) for m, _ in members),
@@ -228,6 +239,21 @@ def run(ctx):
             hangs += 1
         except Exception as e:  # noqa
             ctx.violation(f"sticky-raises:{type(e).__name__}", f"sticky assignor raised {e!r} in a chain", {"cases": [{"parts": parts, "members": members}]})
+    # corpus: minimised inputs of repaired defects (a join round on a given previous assignment), run on every check
+    import glob as _glob
+    import json as _json
+    for f in sorted(_glob.glob(str(pathlib.Path(__file__).resolve().parent.parent.parent / "corpus" / "C15" / "*.json"))) if ctx.replay_cases is None else []:
+        for c in _json.load(open(f))["cases"]:
+            parts = [(t, list(ps)) for t, ps in c["parts"]]
+            old_members = [(m, list(sb)) for m, sb in c["members"]]
+            new_members = [(m, list(sb)) for m, sb in c["new"]]
+            prev_out = [(m, [(t, list(ps)) for t, ps in items]) for m, items in c["prev"]]
+            try:
+                cur = sticky_round(A, parts, new_members, tomap(prev_out), -1)
+                q("no-old-to-old", prev_out, cur, ",".join(str(m) for m, _ in old_members),
+                  {"clause": "c-corpus", "parts": parts, "members": old_members, "new": new_members, "file": f.rsplit("/", 1)[-1]})
+            except AssignorHang:
+                hangs += 1
     res = ctx.driver("akdriver", lines) if lines else []
     # T-diff of every round with the Lean port of the algorithm
     pres = ctx.driver("akdriver", [l for l, _, _ in PORT_LINES]) if PORT_LINES else []
